@@ -944,6 +944,25 @@ func closureCounter(info *types.Info, scope ast.Node, lit *ast.FuncLit, noArgs b
 				return eval(x.Args[0])
 			}
 			fn := fullName(callee(info, x))
+			// method form on the typed atomics: order.Add(k) with order an atomic.Int32 / Int64 / Uint32 / Uint64
+			if strings.HasPrefix(fn, "sync/atomic.(") && strings.HasSuffix(fn, ").Add") && len(x.Args) == 1 {
+				if sel, ok := ast.Unparen(x.Fun).(*ast.SelectorExpr); ok {
+					if id, ok := ast.Unparen(sel.X).(*ast.Ident); ok {
+						o := info.ObjectOf(id)
+						if cvar == nil {
+							cvar = o
+						}
+						if o == cvar {
+							if tv, ok := info.Types[x.Args[0]]; ok && tv.Value != nil {
+								k, _ := constant.Int64Val(constant.ToInt(tv.Value))
+								coff += int(k)
+								synced = true
+								return val{true, coff}
+							}
+						}
+					}
+				}
+			}
 			if strings.HasPrefix(fn, "sync/atomic.AddInt") || strings.HasPrefix(fn, "sync/atomic.AddUint") {
 				if len(x.Args) == 2 {
 					if u, ok := ast.Unparen(x.Args[0]).(*ast.UnaryExpr); ok && u.Op == token.AND {
@@ -1403,7 +1422,37 @@ func (a *it4) maxTracked(p *itEvent, mvar types.Object, oi ordInfo, offDefs []as
 	for k := len(p.path) - 1; k >= 0; k-- {
 		if l, ok := p.path[k].(*ast.ForStmt); ok {
 			found := false
+			accept := func(tracked string) {
+				if tracked == pushed {
+					found = true
+				} else if oi.offVar != nil && pushed == tracked+" + "+oi.offVar.Name() {
+					// allowed only while the offset is still 0: no later definition of the offset precedes this loop
+					zero := true
+					for _, d := range offDefs[1:] {
+						if d != nil && d.Pos() < l.Pos() {
+							zero = false
+						}
+					}
+					if zero {
+						found = true
+					}
+				}
+			}
 			ast.Inspect(l.Body, func(n ast.Node) bool {
+				// m = max(m, X) / m = max(X, m)
+				if as, ok := n.(*ast.AssignStmt); ok && len(as.Lhs) == 1 && len(as.Rhs) == 1 {
+					if lid, ok := ast.Unparen(as.Lhs[0]).(*ast.Ident); ok && info.ObjectOf(lid) == mvar {
+						if call, ok := ast.Unparen(as.Rhs[0]).(*ast.CallExpr); ok && len(call.Args) == 2 {
+							if fid, ok := call.Fun.(*ast.Ident); ok && fid.Name == "max" {
+								for k, arg := range call.Args {
+									if id, ok := ast.Unparen(arg).(*ast.Ident); ok && info.ObjectOf(id) == mvar {
+										accept(types.ExprString(ast.Unparen(call.Args[1-k])))
+									}
+								}
+							}
+						}
+					}
+				}
 				if ifs, ok := n.(*ast.IfStmt); ok {
 					if b, ok := ast.Unparen(ifs.Cond).(*ast.BinaryExpr); ok && b.Op == token.GTR {
 						if id, ok := ast.Unparen(b.Y).(*ast.Ident); ok && info.ObjectOf(id) == mvar {
